@@ -479,6 +479,11 @@ class Machine:
                 g = cand[0] if len(cand) == 1 else None
             if g is not None:
                 return self.call_fn(g, a)
+        if re.match(r"^core::clone::impls::<impl core::clone::Clone for (u|i)(8|16|32|64|128|size)>::clone$|^core::clone::impls::<impl core::clone::Clone for bool>::clone$", nm):
+            x = a[0]
+            while isinstance(x, tuple) and x and x[0] == "lref":
+                x = x[1][x[2]]
+            return x
         if re.match(r"^core::ops::(function::)?(FnOnce|FnMut|Fn)::call(_once|_mut)?$", nm) and len(a) == 2:
             # a closure passed as `impl Fn*`: the argument tuple is spread
             tup = a[1]
